@@ -25,6 +25,7 @@ statement):
 """
 from __future__ import annotations
 
+import contextlib
 import copy
 import errno
 import io
@@ -1334,10 +1335,14 @@ def execute(sc):
     h = Harness(sc)
     real_path = optmanager.Path
     optmanager.Path = make_path_class(h.fs)
+    sink = io.StringIO()  # ruamel's emitter dumps the chunk it could not write to sys.stdout
     try:
-        h.run()
+        with contextlib.redirect_stdout(sink):
+            h.run()
     finally:
         optmanager.Path = real_path
+    if sink.tell():
+        h.probe("stdout_noise_on_write_error")
     nontrivial = h.accepted_changes > 0 and (h.rejections > 0 or h.roundtrips > 0)
     states = set()
     prev = None
